@@ -140,8 +140,7 @@ def job_transition(N, T, which):
     BIG = -(1 << 59)
     def h(ex, st):
         z = tz.build_zone(ex, st, N, T)
-        # premise: an entry at or before -2^59 is the sentinel / pre-2018 'big bang' entry and carries the default type
-        ex.assume(st, implies(le(z.unix[0], BIG), equiv(z, z.ty[0], z.default)))
+        # an entry at -2^59 is the sentinel Load adds, or the 'big bang' entry of pre-2018 zic output: never reported, whatever its type
         t = ex.input("t")
         tp = ex.new_obj(st, 8, "tp"); ex.store_raw(st, tp, 8, t)
         tr = ex.new_obj(st, 32, "civil_transition")
@@ -149,7 +148,9 @@ def job_transition(N, T, which):
         ex.store_raw(st, Ptr(tr.obj, 16), 8, ex.fresh("junk")); ex.store_raw(st, Ptr(tr.obj, 24), 8, tz.REST)
         frame_monitor(ex, st, z)
         skip0 = le(z.unix[0], BIG)
-        prevty = [z.default] + z.ty[:-1]
+        # the sentinel is not part of the history: the type in force before the first real entry is then the default type
+        # (for zic's own big-bang entries the two coincide: the entry carries the default type)
+        prevty = [z.default] + ([ite(skip0, z.default, z.ty[0])] + z.ty[1:-1] if N > 1 else [])
         changed = [and_(not_(equiv(z, prevty[i], z.ty[i])), (not_(skip0) if i == 0 else True)) for i in range(N)]
         def k(st, rv):
             frm = ex.load(st, Ptr(tr.obj, 0), I64); to = ex.load(st, Ptr(tr.obj, 16), I64)
